@@ -95,11 +95,24 @@ impl<F: Field> MulAddFusion<F> {
     fn scan_use_counts(&mut self, ops: &[Op<F>]) {
         for op in ops {
             match op {
-                Op::Alu { a, b, c, .. } => {
+                Op::Alu {
+                    kind,
+                    a,
+                    b,
+                    c,
+                    intermediate_out,
+                    ..
+                } => {
                     *self.use_counts.entry(*a).or_default() += 1;
                     *self.use_counts.entry(*b).or_default() += 1;
                     if let Some(c) = c {
                         *self.use_counts.entry(*c).or_default() += 1;
+                    }
+                    // A HornerAcc step *reads* its accumulator through `intermediate_out`.
+                    if *kind == AluOpKind::HornerAcc
+                        && let Some(acc) = intermediate_out
+                    {
+                        *self.use_counts.entry(*acc).or_default() += 1;
                     }
                 }
                 Op::NonPrimitiveOpWithExecutor { inputs, .. } => {
